@@ -73,6 +73,10 @@ class Identifier(Node):
         # But:      '@media print'  results in [['@media', ' ', 'print']]
         #
         def replace_variables(tokens, scope):
+            if scope is None:
+                # parsed without a scope (a call site seen by the grammar):
+                # interpolations are resolved when the call is evaluated
+                return tokens
             return [
                 scope.swap(t)
                 if (utility.is_variable(t) and not t in reserved.tokens) else t
